@@ -109,7 +109,11 @@ def gen_proto(rng):
     n = rng.randint(1, 5)
     types = []
     for i in range(n):
-        types.append({'name': rng.choice(['Pos', 'Sprite', 'Body', 'Pos']),
+        types.append({'name': rng.choice(['Pos', 'Sprite', 'Body', 'Pos',
+                                          'Pos', 'Sprite', 'Body', 'Pos',
+                                          # init_prefix + name then names
+                                          # an attribute that is no method
+                                          'methods', 'prefix']),
                       'sources': [s for s in ('dict', 'method', 'sub_method',
                                               'sub_dict')
                                   if rng.random() < 0.35]})
@@ -142,7 +146,9 @@ def gen_cases(tier, seed):
                    'dts': [rng.choice([0, 1, 0.5, 'frac', 'obj', -1, 'none'])
                            for _ in range(rng.randint(1, 5))],
                    'remove_at': rng.choice([None, 1, 2]),
-                   'raise_at': rng.choice([None, None, 0, 1])}
+                   'raise_at': rng.choice([None, None, 0, 1]),
+                   # value-like listeners (all equal, equally hashed)
+                   'equal_listeners': rng.random() < 0.3}
 
 
 def run_case(case):
@@ -434,6 +440,12 @@ def run_proto(case):
         src = spec['sources']
         cls = comp_types[i]
         name = spec['name']
+        reserved = ('init_methods', 'init_prefix', 'component_types')
+        if f'{prefix}{name}' in reserved or (
+                sub_prefix is not None and f'{sub_prefix}{name}' in reserved):
+            # defining a method under that name would clobber the
+            # prototype's own configuration attribute
+            src = [x for x in src if x not in ('method', 'sub_method')]
         if 'dict' in src:
             base_ns['init_methods'][cls] = stamp('dict', i)
         if 'method' in src:
@@ -469,6 +481,13 @@ def run_proto(case):
     for i, cls in enumerate(comp_types):
         name = case['types'][i]['name']
         method = getattr(Cls, f'{eff_prefix}{name}', None)
+        if not callable(method):
+            # e.g. the dictionary init_methods for a type named "methods":
+            # an attribute, not "the method named init_prefix + type name"
+            if method is not None:
+                res.tags['prefix_name_hits_non_method'].add(
+                    f'{eff_prefix}{name}')
+            method = None
         sources = int(cls in eff_dict) + int(method is not None)
         if sources >= 2:
             competing = True
@@ -576,6 +595,10 @@ def run_onupdate(case):
                 fault['obj'] = HarnessError('listener failed')
                 raise fault['obj']
 
+    if case.get('equal_listeners'):
+        L.__eq__ = lambda self, other: isinstance(other, L)
+        L.__hash__ = lambda self: 3
+        res.tags['equal_listeners'].add(True)
     w = desper.World()
     w.add_processor(desper.OnUpdateProcessor())
     ents = []
